@@ -734,3 +734,68 @@ Proof.
   - intros k. exact (smoothing_set_contains_new_l st disp act deact F dir lv k).
   - intros i k. exact (smoothing_set_subset_l st disp act deact F dir lv i k).
 Qed.
+
+(* ---------------------------------------------------------------------- *)
+(* non-canonical CSR: what the routine computes when a row stores several
+   diagonal entries (outside wf_row)                                        *)
+(* ---------------------------------------------------------------------- *)
+Lemma gs_row_general_l : forall M n b x i,
+  (forall c a, In (c, a) (row_entries M i) -> (c < n)%nat) ->
+  gs_row M b x i =
+    let d := last_diag i (row_entries M i) 0 in
+    if Qc_eq_dec d 0 then x
+    else upd i ((vget b i - sum_skip n i (fun j => entry M i j * vget x j)) / d) x.
+Proof.
+  intros M n b x i H. unfold gs_row, row_scan. rewrite scan_fold.
+  rewrite (off_sum_spec n) by exact H. cbv zeta.
+  replace (0 + sum_skip n i (fun j => ent_sum (row_entries M i) j * vget x j))
+    with (sum_skip n i (fun j => entry M i j * vget x j)) by (unfold entry; ring).
+  reflexivity.
+Qed.
+
+Lemma last_diag_app : forall i pre a post dg,
+  diag_count i post = O -> last_diag i (pre ++ (i, a) :: post) dg = a.
+Proof.
+  induction pre as [|[c v] pre IH]; intros a post dg H; simpl.
+  - rewrite Nat.eqb_refl. apply last_diag_nodiag. exact H.
+  - apply IH. exact H.
+Qed.
+
+Lemma ent_sum_app : forall e1 e2 j, ent_sum (e1 ++ e2) j = ent_sum e1 j + ent_sum e2 j.
+Proof. induction e1 as [|[c a] t IH]; intros; simpl; [ring|]. rewrite IH. ring. Qed.
+
+(* the divisor is the LAST stored diagonal entry, whatever was stored before it, while the
+   off-diagonal sum is that of the denoted matrix (repeated coordinates summed) *)
+Lemma gs_row_last_diagonal_l : forall M n b x i pre a post,
+  row_entries M i = pre ++ (i, a) :: post -> diag_count i post = O -> a <> 0 ->
+  (forall c v, In (c, v) (row_entries M i) -> (c < n)%nat) ->
+  gs_row M b x i = upd i ((vget b i - sum_skip n i (fun j => entry M i j * vget x j)) / a) x.
+Proof.
+  intros M n b x i pre a post He Hp Ha Hc.
+  rewrite (gs_row_general_l M n b x i Hc). cbv zeta. rewrite He, last_diag_app by exact Hp.
+  destruct (Qc_eq_dec a 0); [contradiction|reflexivity].
+Qed.
+
+(* ... which is the textbook update iff a equals the denoted diagonal value, i.e. iff the
+   diagonal entries stored before the last one sum to zero *)
+Lemma gs_row_last_diagonal_textbook_iff_l : forall M i pre a post,
+  row_entries M i = pre ++ (i, a) :: post -> diag_count i post = O ->
+  entry M i i = ent_sum pre i + a.
+Proof.
+  intros M i pre a post He Hp. unfold entry. rewrite He, ent_sum_app. simpl.
+  rewrite Nat.eqb_refl, (ent_sum_nodiag i post Hp). ring.
+Qed.
+
+(* witness: [[1 (stored twice at (0,0)), 0],[0,1]], b = (2,0), x = 0: the routine returns x_0 = 2/1,
+   the textbook update of the denoted matrix (a_00 = 2) gives 1 *)
+Definition dupM : csr := mk_csr [0;2;3]%nat [0;0;1]%nat [Q2Qc 1; Q2Qc 1; Q2Qc 1].
+Lemma gs_duplicate_diagonal_refuted_l :
+  exists M n b x i,
+    (forall c a, In (c, a) (row_entries M i) -> (c < n)%nat) /\ entry M i i <> 0 /\
+    gs_row M b x i <> tb_row n (entry M) b x i.
+Proof.
+  exists dupM, 2%nat, [Q2Qc 2; 0], [0; 0], 0%nat. split; [|split].
+  - intros c a Hin. vm_compute in Hin. destruct Hin as [Hin|[Hin|[]]]; inversion Hin; lia.
+  - intro H. apply (f_equal this) in H. vm_compute in H. discriminate.
+  - intro H. apply (f_equal (map this)) in H. vm_compute in H. discriminate.
+Qed.
